@@ -4,7 +4,7 @@ under every master error_handler behaviour, every file epilog() named is handed 
 order; the error path leaves the flags clear and the idle driver idle, so `backend_total` applies to the state
 backend() is entered with.
 -/
-import NV.C09.Total
+import NV.C09.TraceThms
 
 namespace NV.C09
 
@@ -114,14 +114,6 @@ theorem preload_epilog_error_loads_nothing (files : List (String × Bool)) (w : 
   show preloaded (Ev.xErr "epilog" :: Ev.tEpilog :: w.trace).reverse = _
   simp [preloaded, List.filterMap_append]
 
-/-- the oracle's `preload` clause holds on the model's preload phase, for every list of files and failures -/
-theorem judge_preload_phase (files : List (String × Bool)) (w : W) (h1 : w.inError = false) (h2 : w.inMeh = false)
-    (ht : w.trace = []) :
-    clausePreload { preloads := files.map (·.1) } (preloadObjects false files w).trace.reverse = [] := by
-  unfold clausePreload
-  rw [preload_visits_every_file files w h1 h2, ht]
-  simp [preloaded]
-
 theorem Fresh.of_eq {w w' : W} (f : Fresh w) (hu : w'.users = w.users) (hi : w'.inter = w.inter)
     (he : w'.inError = w.inError) (hm : w'.inMeh = w.inMeh) (hc : w'.crashed = w.crashed)
     (hn : w'.nextUser = w.nextUser) : Fresh w' :=
@@ -157,6 +149,85 @@ theorem preload_keeps_fresh (e : Bool) (files : List (String × Bool)) (w : W) (
     have s := errorHandler_same _ "boom epilog" f1.inError f1.inMeh
     exact (Fresh.of_eq f1 s.users s.inter s.inError s.inMeh s.crashed s.nextUser).popCtx
   · exact (preloadFiles_fresh files _ ((f.pushCtx.emit .tEpilog).popCtx.pushCtx)).popCtx
+
+/-- nothing preload_objects() logs is the `start` event of backend() -/
+theorem preloadFiles_noStart : ∀ (fs : List (String × Bool)) (w : W), w.inError = false → w.inMeh = false →
+    (∀ e ∈ w.trace, e ≠ Ev.start) → ∀ e ∈ (preloadFiles fs w).trace, e ≠ Ev.start := by
+  intro fs
+  induction fs with
+  | nil => intro w _ _ h; exact h
+  | cons f fs ih =>
+    intro w h1 h2 hn
+    obtain ⟨name, raises⟩ := f
+    unfold preloadFiles
+    split
+    · have s := errorHandler_same (emit (emit w (.tPreload name)) (.xErr name)) s!"boom {name}" h1 h2
+      obtain ⟨es, he, hq⟩ := errorHandler_trace_meh (emit (emit w (.tPreload name)) (.xErr name)) s!"boom {name}" h1 h2
+      apply ih (errorHandler (emit (emit w (.tPreload name)) (.xErr name)) s!"boom {name}")
+        (by rw [s.inError]; exact h1) (by rw [s.inMeh]; exact h2)
+      intro e hm
+      rw [he] at hm
+      rcases List.mem_append.mp hm with h | h
+      · obtain ⟨m, hm'⟩ := hq e h; rw [hm']; simp
+      · have : e = Ev.meh false s!"boom {name}" ∨ e = Ev.xErr name ∨ e = Ev.tPreload name ∨ e ∈ w.trace := by
+          simpa [emit] using h
+        rcases this with h | h | h | h
+        · rw [h]; simp
+        · rw [h]; simp
+        · rw [h]; simp
+        · exact hn e h
+    · apply ih (emit w (.tPreload name)) h1 h2
+      intro e hm
+      have : e = Ev.tPreload name ∨ e ∈ w.trace := by simpa [emit] using hm
+      rcases this with h | h
+      · rw [h]; simp
+      · exact hn e h
+
+theorem preloadObjects_noStart (files : List (String × Bool)) (w : W) (h1 : w.inError = false) (h2 : w.inMeh = false)
+    (ht : w.trace = []) : ∀ e ∈ (preloadObjects false files w).trace, e ≠ Ev.start := by
+  unfold preloadObjects
+  simp only [Bool.false_eq_true, if_false]
+  show ∀ e ∈ (preloadFiles files (pushCtx (popCtx (emit (pushCtx w) .tEpilog)))).trace, e ≠ Ev.start
+  apply preloadFiles_noStart files (pushCtx (popCtx (emit (pushCtx w) .tEpilog))) h1 h2
+  intro e hm
+  have : e = Ev.tEpilog := by
+    have hm' : e ∈ Ev.tEpilog :: w.trace := hm
+    rw [ht] at hm'
+    simpa using hm'
+  rw [this]; simp
+
+theorem beforeStart_prefix (a b : List Ev) (h : ∀ e ∈ a, e ≠ Ev.start) : beforeStart (a ++ Ev.start :: b) = a := by
+  unfold beforeStart
+  induction a with
+  | nil => simp [List.takeWhile]
+  | cons x xs ih =>
+    have hx : (x != Ev.start) = true := by simpa using h x List.mem_cons_self
+    rw [List.cons_append, List.takeWhile_cons, hx]
+    simp only [if_true]
+    rw [ih (fun e he => h e (List.mem_cons_of_mem _ he))]
+
+/-- the oracle's `preload` clause holds on the model's preload phase, for every list of files and failures -/
+theorem judge_preload_phase (files : List (String × Bool)) (w : W) (h1 : w.inError = false) (h2 : w.inMeh = false)
+    (ht : w.trace = []) :
+    preloaded (preloadObjects false files w).trace.reverse = files.map (·.1) := by
+  rw [preload_visits_every_file files w h1 h2, ht]
+  simp [preloaded]
+
+/-- **clause `preload` of the oracle, all file lists x all failures x all histories x all oracles:** preload_objects()
+    with any files failing, then the whole run of backend() on any history: the judge's `preload` clause accepts the
+    model's trace -/
+theorem judge_preload_clause (S : Scripts) (w : W) (files : List (String × Bool)) (h : List (List Action))
+    (f : Fresh w) (ht : w.trace = []) :
+    clausePreload { preloads := files.map (·.1) } (events S (preloadObjects false files w) h) = [] := by
+  obtain ⟨es, he, _⟩ := runFull_block_start S (preloadObjects false files w) h (preload_keeps_fresh false files w f)
+  have hns := preloadObjects_noStart files w f.inError f.inMeh ht
+  have hb : beforeStart (events S (preloadObjects false files w) h) = (preloadObjects false files w).trace.reverse := by
+    unfold events
+    rw [he, List.reverse_append, List.reverse_cons, List.append_assoc]
+    exact beforeStart_prefix _ _ (fun e hm => hns e (List.mem_reverse.mp hm))
+  unfold clausePreload
+  rw [hb, judge_preload_phase files w f.inError f.inMeh ht]
+  simp
 
 /-- start-up with failing preloads, then ANY history: the driver never crashes and the flags are clear -/
 theorem backend_total_after_preload (S : Scripts) (w0 : W) (e : Bool) (files : List (String × Bool))
